@@ -6,6 +6,7 @@
 // alongside and must agree with it).
 #pragma once
 #include "c02_flat.hpp"
+#include <utility>
 
 namespace c02
 {
@@ -233,5 +234,63 @@ namespace c02
         (void)copy;
         mc::more_cases(steps, steps);
         mc::outcome(mc::fmt("%d/%d", order, rv));
+    }
+
+    // ------------------------------------------------------------------------------ long initializer lists
+    // Lists of 17, 24 and 40 entries in which keys repeat: the FIRST entry of a key must win (std::map's
+    // insert rule). Lengths beyond 16 matter because that is where libstdc++'s std::sort stops being an
+    // insertion sort, i.e. stops being stable. The value of entry i is i, so a wrong survivor is visible.
+    template <class Map, size_t... I> Map *make_long_il(const std::vector<std::pair<int, int>> &v, std::index_sequence<I...>)
+    {
+        std::initializer_list<std::pair<int, int>> il = {v[I]...};
+        return new Map(il);
+    }
+    inline int il_key(int pattern, int i, int len)
+    {
+        switch (pattern)
+        {
+        case 0:
+            return i % 5; // every key many times
+        case 1:
+            return i % (len - 1); // one repeat, at the very end
+        case 2:
+            return (len - i) % 7; // descending runs
+        case 3:
+            return 3; // one key only
+        case 4:
+            return i < len / 2 ? i : len - 1 - i; // second half mirrors the first
+        case 5:
+            return (i * 7) % len / 2; // shuffled pairs
+        case 6:
+            return i < 2 ? 9 : 20 - i % 11; // the repeated key first, then others above and below
+        default:
+            return (i * 5 + 3) % 13;
+        }
+    }
+    template <class Map, class StdRef, class Cmp> void long_initlist_body(const string &variant)
+    {
+        static const int lens[3] = {17, 24, 40};
+        const int NP = 8;
+        int c = mc::choose(3 * NP);
+        int len = lens[c / NP], pat = c % NP;
+        mc::describe("%s: initializer list of %d entries, key pattern %d (entry i has value i), first entry of a key must win", variant.c_str(), len, pat);
+        mc::nontrivial();
+        string op = "ctor_initlist.long_duplicate_keys";
+        mc::crash_context("C02.%s.%s.crash", variant.c_str(), op.c_str());
+        std::vector<std::pair<int, int>> v;
+        RefMapT<Cmp> r;
+        StdRef s;
+        for (int i = 0; i < len; i++)
+        {
+            v.push_back({il_key(pat, i, len), i});
+            r.insert(v.back().first, i);
+            s.insert(v.back().first, i);
+        }
+        if (!s.agrees(r))
+            mc::harness_error("RefMap and std::map disagree in %s", variant.c_str());
+        Map *m = len == 17 ? make_long_il<Map>(v, std::make_index_sequence<17>()) : len == 24 ? make_long_il<Map>(v, std::make_index_sequence<24>()) : make_long_il<Map>(v, std::make_index_sequence<40>());
+        large_map_lookup(variant, op, *m, r, 45);
+        delete m;
+        mc::outcome(mc::fmt("%d/%d/%zu", len, pat, r.size()));
     }
 }
